@@ -79,4 +79,15 @@ def UWord.decode (P : BitPos) (v : Nat) : UWord :=
 def UWord.zero : UWord :=
   ⟨false, false, false, false, 0, false, false, false, 0, false, 0, false, false, false, false, 0, false⟩
 
+/-- Field-wise Boolean equality (cheap for the kernel, unlike the derived `DecidableEq`). -/
+def UWord.same (a b : UWord) : Bool :=
+  a.mac3 == b.mac3 && a.mac2 == b.mac2 && a.mac1 == b.mac1 && a.mac0 == b.mac0 && a.na == b.na &&
+  a.buswr == b.buswr && a.busen == b.busen && a.aa3 == b.aa3 && a.aa == b.aa && a.ab3 == b.ab3 &&
+  a.ab == b.ab && a.mrgws == b.mrgws && a.mrgwe == b.mrgwe && a.maluia == b.maluia &&
+  a.maluib == b.maluib && a.alus == b.alus && a.mchflg == b.mchflg
+
+theorem UWord.same_iff (a b : UWord) : a.same b = true ↔ a = b := by
+  cases a; cases b
+  simp [UWord.same, and_assoc]
+
 end Emu2a
